@@ -53,6 +53,12 @@ json.dump(out, sys.stdout)
 '''
 
 
+# compiled between two compilations of the same description: a grammar that defines rules named like the built-in
+# constructors (a compilation must not leave anything behind that changes the next one)
+POISON = ('start = Opt("q")\n' + ''.join('%s(x) = x\n' % n for n in
+          ('Opt', 'Some', 'List', 'Seq', 'Left', 'Right', 'Sep', 'Choice', 'Expect', 'ExpectNot', 'Skip', 'Longest')))
+
+
 def c11_worker(case):
     """All configurations of one grammar description."""
     import signal
@@ -72,6 +78,8 @@ def c11_worker(case):
             start = case['g'].get('start')
             for inc in (False, True):
                 for k in (1, 2):
+                    if k == 2:
+                        realrun.build(POISON)
                     b = realrun.build(desc, include_source=inc)
                     key = 'named=%s include_source=%s compiles=%d' % (named, inc, k)
                     if b[0] != 'ok':
@@ -134,6 +142,8 @@ def sample(cases, n, rng, max_runs=24):
         c['exp'] = [c['exp'][i] for i in keep]
         cfg = dict(c.get('cfg') or {})
         cfg.pop('name', None)
+        if len(out) % 2 and 'style' not in cfg:
+            cfg['style'] = {'variant': 1}            # constructor spellings: Opt(..), Seq(..), Sep(..), ...
         c['cfg'] = cfg
         out.append(c)
     return out
